@@ -14,7 +14,8 @@ This file mirrors that part: the `Name` property and the reservation mark of eve
 * `Topology.nodes` (facilities excluded) / `Topology.facilities`        → `topoNodes` / `topoFacilities`
 * `Node.interface_list` (components through the name-keyed dictionary)  → `ifaceListNodeD`
 * `Topology.remove_node/remove_facility/remove_switch/remove_link/remove_network_service(name)`,
-  `Node.remove_component/remove_network_service(name)`, `Interface.remove_child_interface(name=)` → `…ByName`
+  `Node.remove_component/remove_network_service(name)`, `Interface.remove_child_interface(name=)`,
+  `NetworkService.remove_interface(name=)` → `…ByName`
 * `ExperimentTopology.prune(state)` → `pruneCollect`, `pruneApi`
 -/
 namespace FimVerif.Remove
@@ -128,6 +129,16 @@ def removeChildByName (g : G) (d : Dir) (h : List IfH) (p : Nat) (name : Nat) : 
     let g1 ← disconnectDeep g [c]
     (removeCp g1 c false).map (fun g' => (g', hDrop h c))
   else .error .assertion
+
+/-- `NetworkService.remove_interface(name=)` (substrate topologies; after the repair 200038a the handle is pruned) -/
+def removeInterface (g : G) (h : List IfH) (i : Nat) : Except Err (G × List IfH) :=
+  (removeCp g i true).map (fun g' => (g', hDrop h i))
+
+/-- by name through the service handle `s`: `find_connection_point_by_name(parent_node_id=self.node_id, iname=name)` -/
+def removeInterfaceByName (g : G) (d : Dir) (h : List IfH) (s : Nat) (name : Nat) : Except Err (G × List IfH) :=
+  if g.cls? s != some .ns && g.cls? s != some .link then .error .query else do
+    let i ← findChild g d s .connects .cp name
+    removeInterface g h i
 
 /-- a Python `set.add`: keep the first occurrence -/
 def addSet (s : List Nat) (x : Nat) : List Nat := if s.contains x then s else s ++ [x]
